@@ -6,5 +6,5 @@ CONSTANTS
   MaxOps = 2
   ShapeSet = "small"
   MCTypes = {"UNDEF", "S", "T", "ZIN", "BAD"}
-INVARIANTS TypeOK DimsFitType RefusedCallsChangeNothing GettersDontModify IndexRule SetThenGet ExposedIsInitial InitIsFresh ModeRules ConvertRules ShrinkRegrow
+INVARIANTS TypeOK DimsFitType RefusedCallsChangeNothing GettersDontModify IndexRule SetThenGet ExposedIsInitial InitIsFresh ModeRules ConvertRules ShrinkRegrow AuxRules
 CHECK_DEADLOCK FALSE
